@@ -80,6 +80,9 @@ func initProperties() {
 				use("SIBLINGOPTS", "bulk getters honour ClearDirtyValues", thriftGeneric),
 				use("HDRUSED", "container header types checked", anyOf(thriftGeneric, thriftPkg)),
 				use("DESCSTEP", "descriptor follows the path step", thriftGeneric),
+				use("WALKADVANCE", "descriptor advances per path step", thriftGeneric),
+				use("NEXTGUARD", "one element read per HasNext", thriftGeneric),
+				use("ERRASSERT", "no unchecked error type assertion can panic", thriftGeneric),
 				use("COUNTCMP", "index == count is out of range", anyOf(thriftGeneric, thriftPkg)),
 			)},
 		{ID: "C02", Title: "JSON->Thrift conversion encodes exactly the value the JSON denotes", QuickP: true,
@@ -130,6 +133,9 @@ func initProperties() {
 				use("KINDEXH", "key/type switches exhaustive", thriftGeneric),
 				use("SWAPBOTH", "multi-set sort permutes old and new nodes together", thriftGeneric),
 				use("COUNTCMP", "index == count addresses nothing", thriftGeneric),
+				use("WALKADVANCE", "name->id translation resolves against the parent of the addressed element", thriftGeneric),
+				use("MAPKEYTYPE", "new map keys are encoded by the key type", thriftGeneric),
+				use("NOTFOUNDPOS", "a missing element is inserted into the searched container", thriftGeneric),
 			)},
 		{ID: "C05", Title: "Thrift DOM load/marshal is lossless; DOM edits marshal as edited",
 			Decides: "the by-id slot threshold is compared identically at load, lookup and store (THRESHAGREE), PathNode.marshal covers every thrift type and writes headers before elements (KINDEXH, HDRFIRST), child-slice growth is bounded by the input (ALLOCBOUND), Marshal copies out of the pooled buffer (POOLESCAPE).",
@@ -163,6 +169,8 @@ func initProperties() {
 				use("HDRUSED", "container header types checked", nil),
 				use("COUNTCMP", "no element read one past the header count", nil),
 				use("DEADCMP", "limit guards are not dead by type range", nil),
+				use("ERRASSERT", "no unchecked error type assertion can panic", nil),
+				use("PACKEDKIND", "packed payloads are walked by the element kind", nil),
 				use("NATIVEQUOTE", "string escaper retry contract", nil),
 				use("NATIVERET", "native status / buffer window", nil),
 			)},
@@ -180,6 +188,11 @@ func initProperties() {
 				use("KINDEXH", "kind switches exhaustive", anyOf(protoGeneric, protoBinary)),
 				use("SIBLINGOPTS", "bulk getters honour ClearDirtyValues", protoGeneric),
 				use("DESCSTEP", "descriptor follows the path step", protoGeneric),
+				use("WALKADVANCE", "descriptor advances per path step", protoGeneric),
+				use("NEXTGUARD", "one element read per HasNext", protoGeneric),
+				use("PACKEDKIND", "packed payloads are walked by the element kind", nil),
+				use("LENZERO", "empty length-delimited payloads are accepted", anyOf(protoGeneric, protoBinary)),
+				use("ERRASSERT", "no unchecked error type assertion can panic", protoGeneric),
 				use("COUNTCMP", "index == count is out of range", protoGeneric),
 			)},
 		{ID: "C08", Title: "Protobuf->JSON conversion emits valid JSON denoting exactly the message",
@@ -226,6 +239,10 @@ func initProperties() {
 			Uses: uses(
 				use("TAGTYPE", "tag wire types", protoGeneric),
 				use("MAPTAG", "map entry numbers", protoGeneric),
+				use("MAPKEYTYPE", "new map keys are encoded by the key kind", protoGeneric),
+				use("NOTFOUNDPOS", "a missing element is inserted into the searched container", protoGeneric),
+				use("LENZERO", "empty length-delimited payloads are accepted", protoGeneric),
+				use("WALKADVANCE", "descriptor advances per path step", protoGeneric),
 				use("SPECLENPAIR", "lengths finished", protoGeneric),
 				use("NILLOOKUP", "lookups checked", func(o *Obl) bool { return protoGeneric(o) && mutators(o) }),
 				use("DROPERR", "errors propagate", func(o *Obl) bool { return protoGeneric(o) && mutators(o) }),
@@ -284,6 +301,7 @@ func initProperties() {
 				use("DESCIMMUT", "descriptors immutable", nil),
 				use("SCOPEFOLLOW", "names resolved in the file they were found in", nil),
 				use("DROPERR", "parse errors propagate", inPkgs("thrift", "internal/util", "internal/caching")),
+				use("PARAMMAPWRITE", "parse entry points do not store into the caller's includes map", inPkgs("thrift")),
 			)},
 		{ID: "C15", Title: "Protobuf descriptors mirror the schema",
 			Decides: "the compiling cache is keyed injectively (CACHEKEY: message types sharing a simple name get distinct descriptors), kind/wire/packedness tables match the spec (KINDTABLE), name maps are built (BUILDPAIR).",
@@ -292,6 +310,7 @@ func initProperties() {
 				use("CACHEKEY", "descriptor identity", nil),
 				use("KINDTABLE", "tables = spec", nil),
 				use("BUILDPAIR", "maps built", inPkgs("proto", "internal/util")),
+				use("PARAMMAPWRITE", "parse entry points do not store into the caller's includes map", inPkgs("proto")),
 			)},
 		{ID: "C16", Title: "Requiredness, defaults and unknown-field options behave as documented", QuickP: true,
 			Decides: "each write/disallow option reaches its own flag bit with the documented polarity (FLAGSYNC), options reach the matching parameter of HandleRequires/CheckRequires/EncodeText/ReadAnyWithDesc (ARGSWAP), an unknown member is an error exactly when disallowed and is otherwise skipped (NEGPOLARITY, UNKNOWNSKIP), unset fields are written under the same key as present ones (KEYSRC), the descriptor's requires bitmap is only copied, never written (DESCIMMUT).",
